@@ -785,6 +785,42 @@ def dohget_kind():
                 ("/200" if "st=ok" in r else "/400" if "http-400" in r else "/other"))
 
 
+def slowreader_gen(rng, tier):
+    """one stream connection, many pipelined queries, a client that does not read for 1.5 - 2.5 s and then reads everything:
+    every query is answered exactly once (from the upstream, or REFUSED beyond the in-flight cap) - the connection must
+    not be cut under a slow reader (seed C03-P: TCP_USER_TIMEOUT of 5 ms instead of 5 s)"""
+    out = []
+    i = 0
+    for rep in range(budget(tier, 1, 4)):
+        for l in ("tcp", "tls", "gnet"):
+            cfg = "U=u;E=0;S=-;R=-:0:0:0;T=1;X=%d" % (8800 + i)
+            name = gens.raw_name([b"slow%d" % i, rng.choice(VOCAB), b"test"])
+            question = name + b"\0" + struct.pack(">HH", 16, 1)
+            txt = bytes(rng.randrange(97, 123) for _ in range(250))
+            rr = b"\xc0\x0c" + struct.pack(">HHIH", 16, 1, 60, 251) + b"\xfa" + txt
+            reply = struct.pack(">HHHHHH", 0, 0x8180, 1, 3, 0, 0) + question + rr * 3
+            q = struct.pack(">HHHHHH", 0, 0x0100, 1, 0, 0, 0) + question
+            out.append("sl%d cfg=%s l=%s n=%d hold=%d q=%s up=reply:%s" % (i, cfg, l, rng.choice([300, 600]), rng.choice([1500, 2500]),
+                                                                        gens.hx(q), gens.hx(reply)))
+            i += 1
+    return out
+
+
+def slowreader_oracle(line, res):
+    f = gens.fields(res)
+    if not res.startswith("sent="):
+        return None
+    if f["got"] != f["sent"] or f["ids"] != f["sent"]:
+        return ("a client that pipelined %s queries on one connection and read slowly got %s responses (%s distinct ids); the "
+                "stream ended with: %s" % (f["sent"], f["got"], f["ids"], f["err"]))
+    return None
+
+
+def slowreader_kind():
+    return dict(name="slowreader", gen=slowreader_gen, oracle=slowreader_oracle, model=False, timeout=600, shards=1,
+                nontrivial=lambda l, r: True, classify=lambda l, r: gens.fields(l).get("l", "?"))
+
+
 def recover_gen(rng, tier):
     """every listener kind: a client bursts through its budget (connections and queries refused at every layer:
     accept, stream, query), pauses until the bucket is full again, and asks once more: the listener must still be
@@ -834,6 +870,8 @@ PROPS["C01"]["kinds"].append(dohget_kind())
 PROPS["C01"]["rule"] += ("; dohget: the RAW text of the dns parameter of DoH GET requests (exact, percent-encoded line breaks, cut queries, "
                          "padding, characters outside the alphabet, dangling characters, trailing octets) through the net/http and "
                          "fasthttp listeners, status and response compared with Net/DohGet.v + handle")
+PROPS["C03"]["kinds"].append(slowreader_kind())
+PROPS["C03"]["rule"] += "; slowreader: many pipelined queries on one stream connection read after a pause: one response per query (oracle only)"
 PROPS["C03"]["kinds"].append(recover_kind())
 PROPS["C03"]["rule"] += ("; recover: on every listener kind a client bursts through its limiter budget, pauses until the bucket is "
                          "full and asks again: the listener must still answer from the upstream (oracle only)")
